@@ -332,14 +332,23 @@ impl Sim {
     /// `addr` or until simulated time `deadline`. Returns `None` when the futex word does not
     /// hold `expected` (EAGAIN), otherwise whether the wait timed out.
     pub fn futex_wait(&self, me: usize, addr: usize, expected: u32, deadline: Option<u64>) -> Option<bool> {
+        self.wait_on(me, addr, Some(expected), deadline)
+    }
+
+    /// Block `me` on the wait queue of `addr` until `futex_wake(addr, ..)` / `wake_lock_waiters`
+    /// or until simulated time `deadline`; with `expected`, only if the 32-bit word at `addr`
+    /// still holds it. `None`: the word differed; `Some(timed_out)` otherwise.
+    pub fn wait_on(&self, me: usize, addr: usize, expected: Option<u32>, deadline: Option<u64>) -> Option<bool> {
         let mut g = self.lock();
         // compare and enqueue under the scheduler lock, which `futex_wake` takes too: a thread
         // that is not under the scheduler's control any more (the tail of a finished thread
         // releasing a process-wide lock of std or of a library) may store and wake for real at
         // any moment, and its wake must not fall between the comparison and the enqueueing
         // SAFETY: the caller passes the address of a live futex word (it is about to sleep on it)
-        if unsafe { std::ptr::read_volatile(addr as *const u32) } != expected {
-            return None;
+        if let Some(expected) = expected {
+            if unsafe { std::ptr::read_volatile(addr as *const u32) } != expected {
+                return None;
+            }
         }
         g.step += 1;
         g.kind_counts[Kind::Block as usize] += 1;
